@@ -48,7 +48,7 @@ INFO = dict(
          'fake socket handle returning symbolic chunk sizes'],
   assumptions=['A5', 'interfaces written by the harness in generated-code style (harness/gen_svc.py)'],
 )
-EXPECT_COVERS = ['binary-client-after-json-builder', 'request-oneway', 'request-non-ascii', 'reply-value', 'reply-declared-exception', 'reply-application-exception',
+EXPECT_COVERS = ['calls-queued-before-written', 'binary-client-after-json-builder', 'request-oneway', 'request-non-ascii', 'reply-value', 'reply-declared-exception', 'reply-application-exception',
                  'reply-void', 'reply-missing-result', 'chunk-split-header', 'chunk-eof-midway', 'transport-chunked-reply']
 
 
@@ -73,6 +73,7 @@ def jobs(tier):
       js.append(dict(name='readall-%s-%d' % (impl, s), op='readall', impl=impl, sz=s, cost=2 ** s))
   js.append(dict(name='transport-chunked', op='transport', cost=3000, shards=16, shard_depth=6))
   js.append(dict(name='after-other-protocol-builder', op='otherbuilder', cost=5))
+  js.append(dict(name='calls-serialized-before-connection-is-up', op='queued', cost=50))
   return js
 
 
@@ -214,6 +215,33 @@ def make_body(job):
       check('readall.no-overread', hd.pos == sz)
       check('readall.enough-data', eof >= sz)
       if len(hd.sizes) > 1: cover('chunk-split-header')
+    elif op == 'queued':
+      # three calls are made (and serialized) while the client's first connection is still being opened, two of them wait
+      # in the pool queue (max_watermark=1): each must reach the server with its own method and arguments, and get its own reply
+      import io
+      tsink_mod.BytesIO = io.BytesIO
+      from . import stacks
+      from scales.thrift import Thrift
+      from scales.constants import SinkRole
+      from scales.pool import WatermarkPoolSink
+      e = stacks.setup()
+      L = fresh_real('open_latency', 0, 2)
+      script = netm.Script(plan=lambda i, p: ('reply', 0))
+      e.net.endpoint('a', 1, peer=lambda s_: netm.ThriftPeer(s_, script), connect_delay=L)
+      b = Thrift.NewBuilder(stacks.Hello.Iface).SetUri('tcp://a:1').SetTimeout(30).SetOpenTimeout(0)
+      if choose('single_connection', 2): b = b.ReplaceRole(SinkRole.Pool, WatermarkPoolSink.Builder(max_watermark=1))
+      c = b.Build()
+      args = ['first', 'second-argument', '3']
+      ars = [c.hi_async(a) for a in args]
+      gevent.sleep(10)
+      cover('calls-queued-before-written')
+      seen = sorted(tuple(r[3]) for r in script.requests)
+      check('queued.server-decodes-each-call-as-made', seen == sorted((a,) for a in args))
+      for a, ar in zip(args, ars):
+        ev = stacks.events(ar)
+        check('queued.own-reply', len(ev) == 1 and ev[0][1] == 'value' and ev[0][2] == 'echo:' + a)
+      check('no-greenlet-error', not vtime.ERRORS)
+      c.DispatcherClose()
     elif op == 'otherbuilder':
       # another client of the same process was configured with a different protocol first (as ThriftHttp does with the
       # JSON protocol); a plain Thrift client built afterwards must still speak the binary protocol
